@@ -50,6 +50,10 @@ func refPlainMode(ptr string, n *yaml.Node, lenient bool) (node *yaml.Node, foun
 		// RFC 6901 section 4: first ~1 -> /, then ~0 -> ~
 		tok = strings.ReplaceAll(tok, "~1", "/")
 		tok = strings.ReplaceAll(tok, "~0", "~")
+		// an alias stands for the node it refers to (the data model has no aliases)
+		for n.Kind == yaml.AliasNode && n.Alias != nil {
+			n = n.Alias
+		}
 		switch n.Kind {
 		case yaml.MappingNode:
 			var f *yaml.Node
@@ -444,6 +448,12 @@ func main() {
 			docs = append(docs, pb.String())
 		}
 	}
+	// YAML documents with anchors and aliases: a pointer walks through an alias as through the node it stands for
+	docs = append(docs,
+		"a: &x\n  b: 1\n  c: [10, 11]\nd: *x\ne:\n  f: *x\n",
+		"- &y [1, 2, {k: 3}]\n- *y\n- z: *y\n",
+		"s: &s text\nt: *s\nu: [*s, *s]\n",
+	)
 	docs = append(docs,
 		`{"a":{"b":1},"a/b":2,"a~1b":3,"a~0b":4,"a~b":5}`,
 		`{"":{"":{"":1}},"/":{"/":2}}`,
